@@ -1,14 +1,18 @@
 #!/bin/sh
-# tools/try_patch.sh <patch.diff> <Cxx> [<Cyy> ...]  - apply a seeded change to /repo, run the quick checks, undo it
+# tools/try_patch.sh <abs path of patch.diff> <Cxx> [<Cyy> ...]
+# applies a seeded change to a scratch worktree of /repo HEAD (never to /repo itself, so that checks running
+# concurrently against /repo are not disturbed), runs the quick checks against it (VERIF_REPO; evidence
+# redirected, replays kept in /verif/replays), removes the worktree
 P="$1"; shift
 cd /verif || exit 2
+WT=/tmp/try-repo-$$
 mkdir -p /tmp/try_patch_evidence
-git -C /repo apply "$P" || { echo "patch does not apply"; exit 2; }
+git -C /repo worktree add --detach -q "$WT" HEAD || exit 2
+git -C "$WT" apply "$P" || { echo "patch does not apply"; git -C /repo worktree remove --force "$WT"; exit 2; }
 for c in "$@"; do
-  VERIF_EVIDENCE_DIR=/tmp/try_patch_evidence VERIF_KEEP_REPLAYS=1 ./check "$c" --tier quick > /tmp/try_patch_$c.log 2>&1
+  VERIF_REPO="$WT" VERIF_EVIDENCE_DIR=/tmp/try_patch_evidence VERIF_KEEP_REPLAYS=1 ./check "$c" --tier quick > /tmp/try_patch_$c.log 2>&1
   rc=$?
   echo "== $c exit=$rc  $(grep -c '^VIOLATION' /tmp/try_patch_$c.log) violation line(s)"
   grep -A1 '^VIOLATION' /tmp/try_patch_$c.log | grep -v '^VIOLATION\|^--' | cut -c1-230 | head -4
 done
-git -C /repo checkout -- . 
-git -C /repo status --short | grep -v '^??' 
+git -C /repo worktree remove --force "$WT"
